@@ -327,6 +327,11 @@ def sampled_snap(snap):
     return mx, used, samples, pairs
 
 
+def _w64(z):
+    """the i64 value of an integer: costs are i64, sums and differences wrap (exact whenever they fit)"""
+    return (z + (1 << 63)) % (1 << 64) - (1 << 63)
+
+
 def mon_c20(case):
     """SampledLFU: room_left, update/remove results and fill_sample against the tracked pairs"""
     if case["kind"] != 6:
@@ -340,8 +345,8 @@ def mon_c20(case):
             return step, "unreadable snapshot"
         mx, used, samples, pairs = prev
         c = op[0]
-        if c == 119 and out != [mx - sum(pairs.values()) - op[1]]:
-            return step, f"room_left({op[1]}) = {out}, max {mx}, recorded costs {pairs}"
+        if c == 119 and out != [_w64(mx - sum(pairs.values()) - op[1])]:
+            return step, f"room_left({op[1]}) = {out}, max {mx}, recorded costs {pairs} (i64 arithmetic, exact modulo 2^64)"
         if c in (112, 113):
             k = op[1] if c == 112 else op[3]
             if out != [int(k in pairs)]:
@@ -363,8 +368,8 @@ def mon_c20(case):
             if len(appp) != want_n or any(pairs.get(k) != v for k, v in appp) or len({k for k, _ in appp}) != len(appp):
                 return step, f"fill_sample appended {appp}; tracked {pairs}, samples {samples}, input {nin}"
         # the accounting identity on the new state
-        if cur[1] != sum(cur[3].values()):
-            return step, f"used = {cur[1]} but the recorded costs sum to {sum(cur[3].values())}"
+        if cur[1] != _w64(sum(cur[3].values())):
+            return step, f"used = {cur[1]} but the recorded costs sum to {sum(cur[3].values())} (i64 arithmetic, exact modulo 2^64)"
         prev = cur
     return None
 
